@@ -279,6 +279,11 @@ func (x *Exec) specCall(env *evalEnv, n *ast.CallExpr) (Val, bool) {
 		a := x.expr(env, n.Args[0])
 		i := x.expr(env, n.Args[1])
 		return Val{"(runeAt " + a.S + " " + i.S + ")", types.Typ[types.Rune]}, true
+	case "rune_width":
+		// width in bytes of the rune utf8.DecodeRuneInString finds at byte offset i of s (the decoder's second result)
+		a := x.expr(env, n.Args[0])
+		i := x.expr(env, n.Args[1])
+		return Val{"(runeW " + a.S + " " + i.S + ")", tInt}, true
 	case "printed_fmt":
 		x.ctx.decl("fun:printed_fmt", "(declare-fun printed_fmt (Int) Str)")
 		a := x.expr(env, n.Args[0])
